@@ -69,6 +69,9 @@ type Config struct {
 func specsFor(cfg Config) []txn.Spec {
 	prof := sopx.Profile(cfg.Profile)
 	specs := []txn.Spec{{Name: "alpha", Slot: cfg.Slot, Profile: prof}}
+	if cfg.Shape == "S0-first-root" {
+		specs = append(specs, txn.Spec{Name: "fresh", Slot: []int{2, 4, 8}[cfg.Prog%3], Profile: prof, Empty: true})
+	}
 	if cfg.Shape == "S9-multistore" {
 		specs = append(specs, txn.Spec{Name: "beta", Slot: 4, Profile: sopx.Separate}, txn.Spec{Name: "gamma", Slot: 2, Profile: sopx.InNode})
 	}
